@@ -150,7 +150,7 @@ func TestVerif_C04_Lifecycle(t *testing.T) {
 		}
 		for i := 0; i < nOps; i++ {
 			s.w.step = i + 1
-			op := rapid.SampledFrom([]string{"tick", "tick", "tick", "tick", "connect", "connect", "traffic", "data", "data", "silence", "silence", "silence", "restart", "close", "answerAll"}).Draw(rt, "op")
+			op := rapid.SampledFrom([]string{"tick", "tick", "tick", "tick", "connect", "connect", "traffic", "data", "data", "silence", "silence", "silence", "restart", "close", "answerAll", "roleSwitch"}).Draw(rt, "op")
 			if op == "close" && rapid.IntRange(0, 7).Draw(rt, "reallyClose") != 5 {
 				op = "tick"
 			}
@@ -220,6 +220,39 @@ func TestVerif_C04_Lifecycle(t *testing.T) {
 				s.peerRequest(ep, to, false, nil, 100, peerRole, 77)
 				lastRecv = time.Now()
 				s.ops = append(s.ops, "traffic")
+			case "roleSwitch":
+				// an authenticated check from the selected remote claims the agent's own role with the winning
+				// tie-breaker: the agent switches role; selection, state and liveness rules are unaffected
+				sp := s.ag.selectedPair()
+				if sp == nil || closed || lite {
+					break
+				}
+				to := s.ag.sockByLocal(sp.Local)
+				ep := s.epByAddr(sp.Remote.addrPort())
+				if to == nil || ep == nil {
+					break
+				}
+				own, tie := "controlled", uint64(0)
+				if s.ag.a.isControlling.Load() {
+					own, tie = "controlling", ^uint64(0)
+				}
+				s.peerRequest(ep, to, false, nil, 100, own, tie)
+				if s.ag.a.isControlling.Load() == (own == "controlling") {
+					break // tie-breaker equal to the boundary value: no switch
+				}
+				if own == "controlling" {
+					peerRole = "controlling"
+				} else {
+					peerRole = "controlled"
+				}
+				controlling = !controlling
+				// re-synchronise the liveness model (whether the conflicting request counts as traffic is not specified)
+				lastRecv = time.Now()
+				if setter, ok := sp.Remote.(candidateActivitySetter); ok {
+					setter.setLastReceived(lastRecv)
+				}
+				lbl["role-switch-while-selected"] = true
+				s.ops = append(s.ops, "roleSwitch")
 			case "data":
 				sp := s.ag.selectedPair()
 				if sp == nil || closed {
@@ -301,6 +334,9 @@ func TestVerif_C04_Lifecycle(t *testing.T) {
 			s.w.settle()
 			sample()
 			visited[sampled[len(sampled)-1]] = true
+			if cs := sampled[len(sampled)-1]; (cs == ConnectionStateConnected || cs == ConnectionStateDisconnected) && s.ag.selectedPair() == nil {
+				st.Fail(rt, "C04/state/connected-without-selected-pair", "after step %d (%s) the agent is %s but has no selected pair\nops: %s", i, op, cs, strings.Join(s.ops, "; "))
+			}
 		}
 		if !closed && rapid.Bool().Draw(rt, "closeAtEnd") {
 			s.w.step = nOps + 1
